@@ -206,7 +206,8 @@ func genC17(rt *rapid.T) *C17Case {
 	c.DurationS = rapid.OneOf(
 		rapid.Int64Range(-100, 100),
 		rapid.Int64Range(0, 86400),
-		rapid.SampledFrom([]int64{-86400, -1, 0, 1, 2, 59, 60, 3600, 86400, 315360000}),
+		rapid.SampledFrom([]int64{-86400, -1, 0, 1, 2, 59, 60, 3600, 86400, 315360000, 630720000, 1200798847, 1200798848, 1200798849, 1262304000, 3153600000}),
+		rapid.Int64Range(0, 4000000000),
 	).Draw(rt, "duration")
 	c.OffsetMs = rapid.SampledFrom([]int{0, 0, 1, 250, 500, 999}).Draw(rt, "offset")
 	c.Window = 5
